@@ -94,4 +94,29 @@ example : String.ofList (layoutModel ['#'] .none (.num 0) .x 0) = "0x" ∧ cprin
 example : String.ofList (layoutModel [] .none .dot .d 0) = "0" ∧ cprintfInt {} 0 (some 0) .d 0 = "" := by decide +kernel
 
 
+/-- `asprintf_block`: gmp_asprintf / gmp_vasprintf, for every sequence of output callbacks (pieces formatted
+    by the C library, MPIR digit strings, padding runs of any length): the growth loop terminates, no store
+    goes outside the current allocation (`ok`), the text is the whole output, and the block handed to the
+    caller has exactly length+1 bytes. -/
+theorem asprintf_block (cs : List Call) :
+    ∃ r, asRun cs = some r ∧ r.block = r.ret + 1 ∧ r.ret = (callsBytes cs).length ∧
+      r.text = callsBytes cs ∧ r.ok = true := by
+  obtain ⟨d, e, ⟨i1, i2⟩, b⟩ := asCalls_spec cs {} ⟨by decide, rfl⟩
+  refine ⟨{ ret := (callsBytes cs).length, text := d.buf, block := d.buf.length + 1,
+             ok := d.ok && decide (d.buf.length + 1 ≤ d.alloc) }, by simp only [asRun, e], ?_, rfl, ?_, ?_⟩
+  · simp [b]
+  · simpa using b
+  · simp [i2]; exact i1
+
+-- non-vacuity: a 300-byte padding run forces the 256-byte buffer to grow (to 2*300) and shrink to 301
+example : (asRun [.reps ' ' 300]).map (fun r => (r.ret, r.block, r.ok)) = some (300, 301, true) := by decide +kernel
+example : (asCalls {} [.reps ' ' 300]).map (fun d => d.reallocs) = some [(256, 600)] := by decide +kernel
+-- a libc piece of exactly 511 bytes returns space-1 and makes vasprintf.c's loop go round again (space *= 2);
+-- a longer one takes the `space = ret+2` exit
+example : (asCalls {} [.format (List.replicate 511 'x')]).map (fun d => (d.alloc, d.ok)) = some (2048, true) := by
+  decide +kernel
+example : (asCalls {} [.format (List.replicate 600 'x')]).map (fun d => (d.alloc, d.ok)) = some (1204, true) := by
+  decide +kernel
+
+
 end Mpir.Printf
